@@ -27,7 +27,8 @@ ASSUMPTIONS = c03.ASSUMPTIONS + [
     "exactness of member-wise prefix containment for cube-vs-cube is argued in DESIGN 4/C11",
 ]
 REQUIRED = ["answered_true", "answered_false", "nc_involved_true", "acl_with_shadow",
-            "acl_without_shadow", "acl_attribution_not_adjacent"]
+            "acl_without_shadow", "acl_attribution_not_adjacent", "standard_pair", "switched_pair", "acl_standard",
+            "acl_switched"]
 LONG_SUB = [1, 2, 4, 5, 3, 9]  # two independent (cover, covered) pairs + two more: longer lists
 SKIP_ACL = [None, ["nc_wildcard"], ["addrgroup", "nc_wildcard"]]
 
@@ -63,10 +64,51 @@ def units(tier, seed):
         out.append(dict(kind="acls_dup", platform=plat))
         for first in LONG_SUB:
             out.append(dict(kind="acls_long", platform=plat, first=first))
+    out += c03.extra_units()
+    out += [dict(kind="acls_standard", first=i) for i in range(len(STD_LINES))]
+    for plat in ("ios", "nxos"):
+        out += [dict(kind="acls_switched", platform=plat, first=i) for i in range(len(acl_entries(seed)))]
     return out
 
 
+STD_LINES = ["permit any", "permit {net24}", "permit {net30} log", "deny {net30}", "permit {host1}",
+             "deny {host1} log", "permit {nc}", "deny {net31}"]
+
+
+def _acls_standard(unit, ctx):
+    """Standard ACLs: every ordered list of <= 3 (thorough 4) distinct source-only entries."""
+    al = {a.label: a.spellings("ios")[0][0] for a in G.addr_alphabet(ctx.seed)}
+    texts = [t.format(net24=al["net24"], net30=al["net30"], host1=al["host1"], net31=al["net31"],
+                      nc=al["nc_low_run_plus_bit"]) for t in STD_LINES]
+    rest = [i for i in range(len(texts)) if i != unit["first"]]
+    for n in range(0, _L(ctx.tier)):
+        for combo in permutations(rest, n):
+            idx = (unit["first"],) + combo
+            for skip in SKIP_ACL:
+                _check_acl("ios", [texts[i] for i in idx], skip, ctx, acl_type="standard")
+                ctx.out("acl_standard")
+    ctx.sample("acl_standard", dict(lines=[texts[i] for i in idx]))
+
+
+def _acls_switched(unit, ctx):
+    """The numeric switches change text only: lists of <= 3 entries with protocol_nr / port_nr on."""
+    plat = unit["platform"]
+    entries = acl_entries(ctx.seed)
+    texts = [e.text(plat) for e in entries]
+    rules = [e.rule() for e in entries]
+    rest = [i for i in range(len(entries)) if i != unit["first"]]
+    for n in range(0, 3):
+        for combo in permutations(rest, n):
+            idx = (unit["first"],) + combo
+            for cfg in c03.SWITCHES:
+                _check_acl(plat, [texts[i] for i in idx], None, ctx, [rules[i] for i in idx], cfg=cfg)
+                ctx.out("acl_switched")
+    ctx.sample("acl_switched", dict(platform=plat, lines=[texts[i] for i in idx]))
+
+
 def run_unit(unit, ctx):
+    if c03.run_extra(unit, ctx, False, exact=True, accept=lambda t, b: _nonempty(t) and _nonempty(b)):
+        return
     if unit["kind"] == "pairs":
         plat = unit["platform"]
         alph = P.alphabets(ctx.seed, plat, groups=False, small=len(unit["pos"]) >= 3)
@@ -84,6 +126,10 @@ def run_unit(unit, ctx):
         _acls(unit, ctx)
     elif unit["kind"] == "acls_long":
         _acls_long(unit, ctx)
+    elif unit["kind"] == "acls_standard":
+        _acls_standard(unit, ctx)
+    elif unit["kind"] == "acls_switched":
+        _acls_switched(unit, ctx)
     else:
         _acls_dup(unit, ctx)
 
@@ -93,7 +139,8 @@ def replay(case, ctx):
         case = dict(case, exact=True)
         c03.replay(case, ctx)
     else:
-        _check_acl(case["platform"], case["lines"], case.get("skip"), ctx)
+        _check_acl(case["platform"], case["lines"], case.get("skip"), ctx,
+                   acl_type=case.get("acl_type") or "extended", cfg=case.get("cfg"))
 
 
 # ---------------------------------------------------------------------------------------- ACLs
@@ -135,18 +182,21 @@ def _spec(rules, lines, skip):
     return report
 
 
-def _check_acl(platform, texts, skip, ctx, rules=None, distinct=True):
+def _check_acl(platform, texts, skip, ctx, rules=None, distinct=True, acl_type="extended", cfg=None):
     from cisco_acl import Acl
 
     from vf.refsem.reader import Reader
 
     ctx.ev()
-    case = dict(kind="acl", platform=platform, lines=list(texts), skip=skip)
-    head = "ip access-list extended A" if platform == "ios" else "ip access-list A"
-    acl = Acl(head + "\n" + "\n".join(" " + t for t in texts), platform=platform)
+    case = dict(kind="acl", platform=platform, lines=list(texts), skip=skip, acl_type=acl_type, cfg=cfg)
+    head = f"ip access-list {acl_type} A" if platform == "ios" else "ip access-list A"
+    acl = Acl(head + "\n" + "\n".join(" " + t for t in texts), platform=platform, **(cfg or {}))
     lines = [o.line for o in acl.items]
+    if len(lines) != len(texts) or acl.type != acl_type:
+        ctx.viol("harness:acl_not_built_as_described", case, lines, texts)
+        return
     if rules is None:
-        rules = [Reader(platform).read_line(ln) for ln in lines]
+        rules = [Reader(platform).read_line(ln, acl_type) for ln in texts]
     try:
         got = acl.shading(skip)
         got_list = acl.shadow_of(skip)
